@@ -225,8 +225,11 @@ class MarkingDefinition(_STIXBase21, _MarkingsMixin):
                 raise ValueError("definition_type must be a valid marking type")
 
             if not isinstance(kwargs['definition'], marking_type):
-                defn = _get_dict(kwargs['definition'])
-                kwargs['definition'] = marking_type(**defn)
+                try:
+                    defn = _get_dict(kwargs['definition'])
+                    kwargs['definition'] = marking_type(**defn)
+                except RecursionError:
+                    raise ValueError("definition is nested too deeply")
 
         super(MarkingDefinition, self).__init__(**kwargs)
 
